@@ -149,7 +149,7 @@ Theorem C18_rejection_is_templated :
   forall re self vals, env_ok (init_env k) self vals = true ->
     match run re self vals (g_prog g) with
     | Bare _ => False
-    | Named tid _ => exists t, In t templates /\ t_id t = tid /\ scalar_kind t = true /\ tmpl_ok (t_segs t) = true
+    | Named tid _ => exists t, In t templates /\ t_id t = tid /\ tmpl_ok (t_segs t) = true
     | Pass _ => True
     end.
 Proof. exact rejection_is_templated. Qed.
